@@ -167,6 +167,9 @@ def bpHandler : Handler := fun op j =>
     match normEid e with
     | none => some (jobj [("none", Json.bool true)])
     | some e' => some (jobj [("eid", eidToJson e'), ("wf", Json.bool (wfEid e))])
+  | "bp.dtntime" => do
+    let us ← getNat? j "us"
+    some (jobj [("dtntime", jnat (dtnTimeOfMicros us)), ("back_us", jnat (microsOfDtnTime (dtnTimeOfMicros us)))])
   | "bp.asbenc" => do
     let a ← (getObj? j "asb").bind asbOfJson?
     some (jobj [("hex", jhex a.enc), ("wf", Json.bool (wfAsb a))])
